@@ -194,10 +194,42 @@ def run(ctx, eng):
                 for a in eng.r.type_of(v, _Ctx(c.module, cq)):
                     if a[0] == 'inst' and mutable_class(a[1]):
                         shared.append(('%s.%s' % (cq, an), a[1], v))
-            if isinstance(v, (ast.List, ast.Dict, ast.Set)) and (
-                    v.elts if not isinstance(v, ast.Dict) else v.keys):
-                # a non-empty mutable literal at class level: written?
-                pass
+            if isinstance(v, (ast.List, ast.Dict, ast.Set, ast.ListComp,
+                              ast.DictComp, ast.SetComp)) or (
+                    isinstance(v, ast.Call) and isinstance(
+                        v.func, ast.Name) and v.func.id in (
+                            'dict', 'list', 'set', 'OrderedDict',
+                            'defaultdict', 'bytearray')):
+                # a mutable container at class level is one object for all
+                # connections; harmless as a constant table, shared state
+                # as soon as anything writes into it (unless every instance
+                # rebinds the name to its own object)
+                rebound = any(
+                    isinstance(n, ast.Attribute) and n.attr == an and
+                    isinstance(n.ctx, ast.Store) and
+                    isinstance(n.value, ast.Name) and n.value.id == 'self'
+                    and not isinstance(getattr(n, '_parent', None),
+                                       ast.Subscript)
+                    for n in ast.walk(c.node))
+                for q2, f2 in ([] if rebound else m.funcs.items()):
+                    for nd in walk_own(f2.node):
+                        tgt = None
+                        if isinstance(nd, ast.Subscript) and isinstance(
+                                nd.ctx, (ast.Store, ast.Del)):
+                            tgt = nd.value
+                        elif isinstance(nd, ast.Call) and isinstance(
+                                nd.func, ast.Attribute) and nd.func.attr in (
+                                    'append', 'add', 'update', 'pop',
+                                    'clear', 'extend', 'remove',
+                                    'setdefault', 'insert', 'popitem'):
+                            tgt = nd.func.value
+                        if isinstance(tgt, ast.Attribute) and \
+                                tgt.attr == an and unparse(tgt.value) in (
+                                    'self', 'cls', c.name, 'type(self)',
+                                    'self.__class__'):
+                            shared.append(('%s.%s' % (cq, an),
+                                           'class-level container written '
+                                           'by %s' % q2.split('.')[-1], nd))
     for q, fi in m.funcs.items():
         for p, d in fi.defaults().items():
             if isinstance(d, (ast.List, ast.Dict, ast.Set)) or (
